@@ -132,6 +132,9 @@ def group(values, min_len: Optional[Integer] = None, max_len: Optional[Integer] 
       IE [0,1,0,1] returns [[0,2], [1,3]]
     """
     original = np.asanyarray(values)
+    if len(original) == 0:
+        # no values: no groups (not one empty group)
+        return []
 
     # save the sorted order and then apply it
     order = original.argsort()
@@ -434,6 +437,8 @@ def merge_runs(data: ArrayLike, digits: Optional[Integer] = None):
         epsilon = 10 ** (-digits)
 
     data = np.asanyarray(data)
+    if len(data) == 0:
+        return data
     mask = np.zeros(len(data), dtype=bool)
     mask[0] = True
     if data.dtype.kind in "iub":
@@ -780,6 +785,9 @@ def blocks(data, min_len=2, max_len=np.inf, wrap=False, digits=None, only_nonzer
       Indices referencing data
     """
     data = float_to_int(data, digits=digits)
+    if len(data) == 0:
+        # no values: no blocks
+        return []
 
     # keep an integer range around so we can slice
     arange = np.arange(len(data))
@@ -866,6 +874,10 @@ def group_min(groups, data):
         Minimum value of data per group
 
     """
+    groups = np.asanyarray(groups)
+    data = np.asanyarray(data)
+    if len(groups) == 0:
+        return data[:0]
     # sort with major key groups, minor key data
     order = np.lexsort((data, groups))
     groups = groups[order]  # this is only needed if groups is unsorted
